@@ -258,6 +258,19 @@ int main(int argc, char **argv) {
       v.data = vb; v.size = sz;
       rc = iwkv_put(dbs[s], &k, &v, 0);
       printf("%s\n", rcname(rc));
+    } else if (!strcmp(op, "putkbig") && n >= 6) { // putkbig <slot> <prefix> <comp> <keysize> <val>: key = prefix, then zero bytes up to <keysize>
+      int s = atoi(tv[1]);
+      IWKV_val k, v = { 0 };
+      mkkey(&k, tv[2], tv[3], &kb);
+      size_t ksz = strtoull(tv[4], 0, 10);
+      uint8_t *big = calloc(1, ksz < k.size ? k.size : ksz);    // pages are only touched where the library reads them
+      if (!big) { printf("NOMEM\n"); free(kb); continue; }
+      memcpy(big, k.data, k.size);
+      k.data = big; k.size = ksz < k.size ? k.size : ksz;
+      v.size = unhex(tv[5], &vb); v.data = vb;
+      rc = iwkv_put(dbs[s], &k, &v, 0);
+      printf("%s\n", rcname(rc));
+      free(big);
     } else if (!strcmp(op, "get")) {
       int s = atoi(tv[1]);
       IWKV_val k, v = { 0 };
